@@ -122,8 +122,12 @@ class C16(Plugin):
         p = html5lib.HTMLParser()
         ps = html5lib.HTMLParser(strict=True)
         if case.get("after_fragment"):
-            p.parseFragment("<b>x</b> y")
-            ps.parseFragment("<b>x</b> y")
+            # ... one with parse errors of its own: they belong to that call, not to the next one
+            p.parseFragment("<b>x</p></i> y&#x80;<table><b>")
+            try:
+                ps.parseFragment("<b>x</b> y")
+            except ParseError:
+                pass
         (p.parseFragment if frag else p.parse)(src)
         errs = [[list(pos), code, sorted(dv)] for pos, code, dv in p.errors]
         fmt_fail = []
